@@ -294,8 +294,9 @@ def analyse(pb, tr):
             if first_eval is None:
                 first_eval = x
                 xp = first.x
-                close = bool(np.allclose(xp, x0_user))
-                want = x0_user if close else xp
+                # repaired solve(): x0 is ALWAYS replaced by its projection (np.allclose only decides the warning)
+                close = False
+                want = xp
                 info["x0_replaced"] = not close
                 if x.tobytes() != want.tobytes():
                     fails.append(("C09:x0-not-projected", "first evaluation at %r, expected %s %r"
